@@ -145,6 +145,103 @@ def run(ctx):
     ctx.floor("replacement sites in RewriteAtQuery", n_sites, 2)
     # --------------------------------------------------------------- index
     _index_spaces(ctx, index)
+    _receiver_shift_agreement(ctx, index)
+    _wrap_unconditional(ctx, index, spy, facts_at)
+    _lookups(ctx, index, spy)
+
+
+def _cond_norm(e, fvar):
+    """condition text with the function-node variable replaced by F"""
+    import re
+
+    return re.sub(r"\b{}\b".format(re.escape(fvar)), "F", norm(e))
+
+
+def _receiver_shift_agreement(ctx, index):
+    """
+    Two sites must agree on when the first parameter is a receiver that `_idx` does not count:
+    annotate_ancestry (starts its enumeration at -1) and RewriteAtQuery.visit_FunctionDef (adds it back
+    when it turns `_idx` into a default index). A condition on one side only shifts every default by one.
+    """
+    aa = index.func("cdd.shared.ast_utils.annotate_ancestry")
+    vf = index.func("cdd.shared.ast_utils.RewriteAtQuery.visit_FunctionDef")
+    start = None
+    for n in iter_own(aa.node):
+        if isinstance(n, ast.Call) and norm(n.func) == "enumerate" and len(n.args) == 2 and norm(n.args[0]).endswith(".args.args"):
+            st = n.args[1]
+            if isinstance(st, ast.IfExp) and norm(st.body) == "-1" and norm(st.orelse) == "0":
+                start = (st.test, norm(n.args[0])[: -len(".args.args")])
+    back = None
+    for n in iter_own(vf.node):
+        if isinstance(n, ast.Call) and norm(n.func) == "int" and len(n.args) == 1 and "self" in norm(n.args[0]):
+            back = (n.args[0], "node")
+    if start is None or back is None:
+        ctx.need(start is not None, "annotate_ancestry no longer starts the parameter enumeration at -1 for receivers")
+        ctx.need(back is not None, "visit_FunctionDef no longer adds the receiver back when it computes the default index")
+    a, b = _cond_norm(start[0], start[1]), _cond_norm(back[0], back[1])
+    ok = a == b
+    ctx.ob(
+        "C13.index",
+        aa,
+        "receiver condition agrees between annotate_ancestry and RewriteAtQuery",
+        ok,
+        ""
+        if ok
+        else "annotate_ancestry skips the receiver when `{}` but visit_FunctionDef adds it back when `{}`: where they "
+        "differ, `_idx` is off by one and the right-hand neighbour's default is overwritten".format(a, b),
+        line=start[0].lineno,
+    )
+
+
+def _wrap_unconditional(ctx, index, spy, facts_at):
+    """the wrap template is applied whenever it is given (and there is an annotation) — not depending on the text"""
+    sites = [
+        n
+        for n in iter_own(spy.node)
+        if isinstance(n, ast.Call) and isinstance(n.func, ast.Attribute) and n.func.attr == "format" and norm(n.func.value) == "output_param_wrap"
+    ]
+    ctx.need(sites, "the output_param_wrap template is no longer applied in sync_property")
+    for c in sites:
+        facts = facts_at.get(id(c)) or {}
+        extra = []
+        for text in facts:
+            names = {x.id for x in ast.walk(ast.parse(text, mode="eval")) if isinstance(x, ast.Name)}
+            if not names <= {"output_param_wrap", "replacement_node", "hasattr", "input_eval", "None"}:
+                extra.append(text)
+        ok = not extra
+        ctx.ob(
+            "C13.io",
+            spy,
+            c,
+            ok,
+            ""
+            if ok
+            else "whether the wrap template is applied depends on {}: for some annotations the selected property is "
+            "written without the requested wrap".format([short(x, 60) for x in extra[:2]]),
+        )
+
+
+def _lookups(ctx, index, spy):
+    """
+    find_in_ast attaches `.default` through an argument index (known finding C13.index); the only lookup the
+    driver may do is the one that selects the INPUT property. Looking the output location up through it too
+    feeds a misaligned default into the file that is written.
+    """
+    calls = [n for n in iter_own(spy.node) if isinstance(n, ast.Call) and (index.callee(spy.mod, n, spy) or "").endswith(".find_in_ast")]
+    ctx.need(calls, "sync_property no longer looks the input property up")
+    for c in calls:
+        a1 = norm(c.args[1]) if len(c.args) > 1 else ""
+        ok = a1 == "input_ast"
+        ctx.ob(
+            "C13.index",
+            spy,
+            c,
+            ok,
+            ""
+            if ok
+            else "sync_property looks `{}` up through find_in_ast, whose `.default` is taken at an argument index (see the "
+            "known finding on find_in_ast): a value kept from that lookup is another parameter's default".format(a1),
+        )
 
 
 def _index_spaces(ctx, index):
